@@ -297,6 +297,13 @@ class Calls:
         for k, e in c.lets.items():
             extra[k] = S.spec_eval_term(e, env_pre, extra)
             env_pre.extra[k] = extra[k]
+        # ghost hooks of the *calling* function on this call's arguments (values at call time); they run before the callee's
+        # preconditions are checked, so that lemma instances the caller attaches to this call can be used for them
+        try:
+            argvals = [ex.read(path) for _, path, _ in bound]
+        except Unsupported:
+            argvals = []
+        ex.ghost_trigger('call:' + re.sub(r'<.*>', '', c.name).split('::')[-1], None, argvals)
         ghost_req = []
         for i, r in enumerate(c.requires):
             lab, e = r if isinstance(r, tuple) else ('req%d' % i, r)
@@ -311,12 +318,6 @@ class Calls:
             ex.assumed.add('trusted contract: ' + c.key)
         if c.fn_params:
             self.check_fn_params(ex, c, bound, extra, n)
-        # ghost hooks of the *calling* function on this call's arguments (values at call time)
-        try:
-            argvals = [ex.read(path) for _, path, _ in bound]
-        except Unsupported:
-            argvals = []
-        ex.ghost_trigger('call:' + re.sub(r'<.*>', '', c.name).split('::')[-1], None, argvals)
         if c.throws is not None:
             cond = S.spec_eval(c.throws, env_pre, extra)
             if ex.decide(cond):
